@@ -7,18 +7,50 @@ func init() {
 		Assumptions: []string{"readers passed by the caller return io errors on exhaustion (a Reader that returns (0, nil) forever is outside the contract)"},
 		Fixtures:    []string{"dec"},
 		Run:         runC16,
+		SelfTest: []Mutation{
+			{Name: "readColorPLY tests only EOF (defect F6)", File: "model3d/import.go",
+				Old: "\t\t} else if err != nil {\n\t\t\treturn nil, nil, err\n\t\t}\n\t\tif element.Name == \"face\" {", New: "\t\t}\n\t\tif element.Name == \"face\" {", Rule: "DE", Expect: "readColorPLY"},
+			{Name: "negative vertex index accepted (defect F7)", File: "model3d/import.go",
+				Old: "if v < 0 || v >= len(vertices) {", New: "if v >= len(vertices) {", Rule: "DI.INPUT", Expect: "readColorPLY"},
+			{Name: "IsStandardFace guard with && (defect F8)", File: "fileformats/ply.go",
+				Old: "if p.Name != \"face\" || len(p.Properties) != 1 {", New: "if p.Name != \"face\" && len(p.Properties) != 1 {", Rule: "DI.CONST", Expect: "IsStandardFace"},
+			{Name: "face validator admits uint indices", File: "fileformats/ply.go",
+				Old: "if prop.ElemType != PLYPropertyTypeInt && prop.ElemType != PLYPropertyTypeInt32 {", New: "if prop.ElemType != PLYPropertyTypeInt && prop.ElemType != PLYPropertyTypeInt32 && prop.ElemType != PLYPropertyTypeUint {", Rule: "DT.ASSERT", Expect: "PLYValueInt32"},
+			{Name: "any non-face row decoded as vertex (defect F10)", File: "model3d/import.go",
+				Old: "} else if element.Name == \"vertex\" {", New: "} else {", Rule: "DT.ASSERT", Expect: "no validator"},
+			{Name: "STL triangle count sizes the slice (defect F9)", File: "model3d/import.go",
+				Old: "\tif capHint > maxImportPrealloc {\n\t\tcapHint = maxImportPrealloc\n\t}\n\ttris :=", New: "\ttris :=", Rule: "DA", Expect: "readSTL"},
+			{Name: "ASCII STL skips blank lines before looking at the read error", File: "fileformats/stl.go",
+				Old: "\t\tnextLine = strings.TrimSpace(nextLine)\n", New: "\t\tnextLine = strings.TrimSpace(nextLine)\n\t\tif nextLine == \"\" {\n\t\t\tcontinue\n\t\t}\n", Rule: "DL", Expect: "readASCII"},
+			{Name: "OFF faces triangulated without the recover barrier (defect F10b)", File: "model3d/import.go",
+				Old: "tris, err := triangulateImportedFace(poly)", New: "tris, err := TriangulateFace(poly), error(nil)", Rule: "DP", Expect: "Triangulate"},
+			{Name: "element type not validated", File: "fileformats/ply.go",
+				Old: "\t\tif err == nil {\n\t\t\terr = prop.ElemType.Validate()\n\t\t}\n", New: "", Rule: "DV", Expect: "ElemType"},
+			{Name: "Size forgets uint16", File: "fileformats/ply.go",
+				Old: "\tcase PLYPropertyTypeShort, PLYPropertyTypeInt16, PLYPropertyTypeUshort, PLYPropertyTypeUint16:\n\t\treturn 2", New: "\tcase PLYPropertyTypeShort, PLYPropertyTypeInt16, PLYPropertyTypeUshort:\n\t\treturn 2", Rule: "DP", Expect: "Size"},
+		},
 	})
 }
 
 func runC16(c *Ctx) {
 	s := c.decoderScope("dec")
-	dx := map[string]bool{"Size": true, "Parse": true, "DecodeBinary": true}
+	tables := c.runPLYTables("DX")
+	dx := map[string]bool{"Size": tables.casesOK, "Parse": tables.casesOK, "DecodeBinary": tables.casesOK}
+	c.floor("DX.CASES", 3)
+	c.floor("DX.TYPE", 16)
+	c.floor("DX.SIZE", 16)
+	c.floor("DX.PARSE", 16)
 	s.ruleDP("DP", dx)
 	s.ruleDE("DE")
 	s.ruleDA("DA")
 	s.ruleDL("DL")
 	s.ruleDIConst("DI.CONST")
 	c.floor("DI.CONST", 20)
+	c.runValidatorConsumer("DT", tables)
+	c.floor("DT.VALID", 2)
+	c.floor("DT.ASSERT", 11)
+	s.ruleDV("DV")
+	c.floor("DV", 3)
 	s.ruleDIInput("DI.INPUT")
 	c.floor("DI.INPUT", 2)
 	c.floor("DP", 3)
